@@ -148,6 +148,11 @@ def run_one(job):
     be carried over by keeping their lines."""
     kind, payload = job
     ident = json.dumps([kind, payload[0]] + ([os.path.relpath(payload[1], ROOT), payload[4]] if kind == "seed" else list(payload[1:4])))
+    if CACHE_PATH and os.path.exists(CACHE_PATH):
+        # another process (a long thorough-tier row started up front) may have finished it meanwhile
+        for line in open(CACHE_PATH):
+            rec = json.loads(line)
+            CACHE[rec["id"]] = rec["res"]
     if ident in CACHE:
         return tuple(CACHE[ident])
     res = _run_one(job)
